@@ -118,7 +118,7 @@ class Gen:
 
 
 # joint kinds the grammar draws from
-KINDS = ["RevoluteX", "RevoluteY", "RevoluteZ", "Revolute", "Prismatic", "Helical", "HelicalPure",
+KINDS = ["RevoluteX", "RevoluteY", "RevoluteZ", "Revolute", "Prismatic", "Helical", "HelicalPure", "HelicalSkew",
          "Spherical", "EulerZYX", "EulerXYZ", "EulerYXZ", "EulerZXY", "TranslationXYZ",
          "FloatingBase", "Emul2", "Emul3", "Emul4", "Emul6", "CustomRevX", "CustomEulerZYX", "CustomCyl",
          "Axis1X"]
@@ -266,6 +266,14 @@ class ModelBuilder:
             if h == 0:
                 h = F(1, 2)
             return "A 1 " + frs(w + [h * x for x in w]), ["a"], 1
+        if kind == "HelicalSkew":
+            # a general 1-DoF axis accepted by Joint(SpatialVector): unit rotation axis, translation NOT parallel
+            # to it (RBDL classifies it as helical; its motion subspace depends on q, so c_J != 0)
+            w = g.unit_vec()
+            t = g.vec(-1, 1)
+            while [w[1] * t[2] - w[2] * t[1], w[2] * t[0] - w[0] * t[2], w[0] * t[1] - w[1] * t[0]] == [0, 0, 0]:
+                t = g.vec(-1, 1)
+            return "A 1 " + frs(w + t), ["a"], 1
         if kind.startswith("Emul"):
             n = int(kind[4:])
             axes, qk = self.emul_axes(n)
@@ -698,11 +706,13 @@ class ConstraintBuilder:
         return [qd[j] - sum(G[k][j] * mu[k] for k in range(len(G))) for j in range(len(qd))]
 
 
-def constrained_case(g, klasses, ncontacts, max_joints=4, baumgarte=False, allow_custom=False, need_free=1):
+def constrained_case(g, klasses, ncontacts, max_joints=4, baumgarte=False, allow_custom=False, need_free=1,
+                     forced_inner=None):
     """returns (mb, grav_line, state_lines, cb) with a full-row-rank, well-conditioned constraint set
     and a velocity satisfying the constraints, or None"""
     for _ in range(12):
-        mb = random_model(g, max_joints=max_joints, allow_custom=allow_custom, fixed_prob=0.3)
+        mb = random_model(g, max_joints=max_joints, allow_custom=allow_custom, fixed_prob=0.3,
+                          forced_inner=forced_inner)
         if mb.nv < 3:
             continue
         grav = "gravity %s" % frs(g.vec(-3, 3))
